@@ -65,8 +65,17 @@ func GetRootFieldsAccessed(op Operation) (rootFieldsAccessed []string) {
 					}
 				}
 			case *opFunction:
-				for _, param := range ot.Params.Paths() {
-					for _, val := range GetRootFieldsAccessed(param.Value) {
+				for _, param := range ot.Params {
+					var paramOp Operation
+					switch pt := param.(type) {
+					case *FP_Path:
+						paramOp = pt.Value
+					case *FP_LogicalOperation:
+						paramOp = pt.Value
+					default:
+						continue
+					}
+					for _, val := range GetRootFieldsAccessed(paramOp) {
 						accessed[val] = struct{}{}
 					}
 				}
@@ -112,13 +121,18 @@ func AddressedPaths(op Operation) (addressedPaths [][]string) {
 			case *opFilter:
 				for _, logOp := range vv.LogicalOperation.Operations {
 					for _, val := range AddressedPaths(logOp) {
-						addressedPaths = append(addressedPaths, append(idents, val...))
+						addressedPaths = append(addressedPaths, append(append([]string{}, idents...), val...))
 					}
 				}
 
 			case *opFunction:
-				for _, p := range vv.Params.Paths() {
-					addressedPaths = append(addressedPaths, AddressedPaths(p.Value)...)
+				for _, p := range vv.Params {
+					switch pt := p.(type) {
+					case *FP_Path:
+						addressedPaths = append(addressedPaths, AddressedPaths(pt.Value)...)
+					case *FP_LogicalOperation:
+						addressedPaths = append(addressedPaths, AddressedPaths(pt.Value)...)
+					}
 				}
 			}
 		}
